@@ -9,7 +9,9 @@ A world (see verif/gen/c16_worlds.py for the generator and the on-disk realisati
               args : [ part ]  part = str | {'r': i} | {'v': variable}; the argument string is the concatenation
               refs : [ {prod: None|component name, path: str|None, method: str, abs: bool} ]
                      prod None -> a file that no component produces: 'data/..', 'input/..' or 'EXT/..' (absolute path)
-                     path None (with prod) -> the working directory of the producer
+                     path None (with prod) -> the working directory of the producer; with 'stdout': True -> what the
+                     producer printed (`<producer>:output`): out.stdout, or for a repeating producer (comp['repeat'] =
+                     repeatInterval) the most recent streams/<index>.stdout
               backend : None | {'kind': 'local'|'kubernetes'|'lsf'|'docker', 'image': str|None}
     gvars/svars : global / per stage variables
     files   : {package relative path: content}      ext: {path under the external directory: content}
@@ -106,6 +108,24 @@ def file_of_ref(world, ref):
             return ('file', None)
         return ('file', _bytes(src[k]))
     outs = (world.get('outputs') or {}).get(ref['prod'], {})
+    if ref.get('stdout'):
+        # `<producer>:output` without a file: what the producer printed. A repeating producer archives the output of
+        # every repetition as streams/<index>.stdout; the reference means the MOST RECENT one (highest index).
+        prod = comp_by_name(world)[ref['prod']]
+        present = {k: v for k, v in outs.items() if '%s/%s' % (ref['prod'], k) not in rm}
+        if prod.get('repeat'):
+            idx = {}
+            for k in present:
+                d, _, f = k.rpartition('/')
+                stem, _, ext = f.rpartition('.')
+                if d == 'streams' and ext == 'stdout' and stem.isdigit():
+                    idx[int(stem)] = k
+            if not idx:
+                return ('file', None)
+            return ('file', _bytes(present[idx[max(idx)]]))
+        if 'out.stdout' not in present:
+            return ('file', None)
+        return ('file', _bytes(present['out.stdout']))
     if ref['path'] is None:
         present = {k: _bytes(v) for k, v in outs.items() if '%s/%s' % (ref['prod'], k) not in rm}
         return ('dir', present)
@@ -258,7 +278,8 @@ def features(world, name):
         'abs_refs_in_args': sorted(c['refs'][i]['path'] for i in in_args
                                    if c['refs'][i]['prod'] is None and c['refs'][i]['path'].startswith('EXT/')),
         'dir_refs_not_in_args': sorted('%s:%s' % (r['prod'], r['method']) for i, r in enumerate(c['refs'])
-                                       if r['prod'] is not None and r['path'] is None and i not in in_args),
+                                       if r['prod'] is not None and r['path'] is None and not r.get('stdout')
+                                       and i not in in_args),
         'backend': (c.get('backend') or {}).get('kind'),
         'image': image_of(c),
         'key_in_value': sorted(k for k in keys if any(k in t for t in texts)),
